@@ -1109,12 +1109,13 @@ def plsr_seq_case(prog):
 
 
 def seq_problems(tier, rng):
-    n = 2 if tier == "quick" else 30
+    n = 1 if tier == "quick" else 30
+    flip = rng.randint(0, 1)          # quick: one regressor sequence of each flavour, the kinds alternate with the seed
     out = []
     for k in range(n):
-        out.append(dict(kind="reg_seq", which="cp" if k % 2 == 0 else "tucker", gen_seed=rng.randint(0, 10 ** 9)))
-    for k in range(2 if tier == "quick" else 12):     # every fit of the sequence re-computed by the model's own fit loop
-        out.append(dict(kind="reg_seq", which="cp" if k % 2 == 0 else "tucker", gen_seed=rng.randint(0, 10 ** 9), loop=True))
+        out.append(dict(kind="reg_seq", which="cp" if (k + flip) % 2 == 0 else "tucker", gen_seed=rng.randint(0, 10 ** 9)))
+    for k in range(1 if tier == "quick" else 12):     # every fit of the sequence re-computed by the model's own fit loop
+        out.append(dict(kind="reg_seq", which="tucker" if (k + flip) % 2 == 0 else "cp", gen_seed=rng.randint(0, 10 ** 9), loop=True))
     for k in range(n):
         out.append(dict(kind="plsr_seq", gen_seed=rng.randint(0, 10 ** 9)))
     return out
@@ -2027,7 +2028,7 @@ def run(chk):
     heavy = [c for c in cases if ctor(c) in HEAVY]
     light = [c for c in cases if ctor(c) not in HEAVY]
     failing, n_eval, broken = C.run_case_shards("C19", HEADER, "case", heavy, shard=(4 if chk.tier == "quick" else 5), timeout=3000, tag="heavy")
-    f2, n2, b2 = C.run_case_shards("C19", HEADER, "case", light, shard=(24 if chk.tier == "quick" else 40), timeout=3000)
+    f2, n2, b2 = C.run_case_shards("C19", HEADER, "case", light, shard=(36 if chk.tier == "quick" else 40), timeout=3000)
     failing |= f2; n_eval += n2; broken = list(broken) + list(b2)
     chk.checker_cmds.append("coqc (vm_compute) on generated build/cases/C19/*.v: Corr.C19.failing")
     chk.cov["traces_validated_against_impl"] = n_eval
